@@ -149,7 +149,10 @@ def update(
         update_expr.set(
             "expressions",
             [
-                EQ(this=maybe_parse(k, dialect=dialect, copy=copy, **opts), expression=convert(v))
+                EQ(
+                    this=maybe_parse(k, dialect=dialect, copy=copy, **opts),
+                    expression=convert(v, copy=copy),
+                )
                 for k, v in properties.items()
             ],
         )
@@ -159,7 +162,7 @@ def update(
             maybe_parse(from_, into=From, dialect=dialect, prefix="FROM", copy=copy, **opts),
         )
     if isinstance(where, Condition):
-        where = Where(this=where)
+        where = Where(this=maybe_copy(where, copy))
     if where:
         update_expr.set(
             "where",
